@@ -48,6 +48,20 @@ def class_is_subclass(c, target):
     return issubclass(c, target)
 
 
+class _LiveList:
+    """Iteration over a concrete list as CPython does it: by index against the live list, so that a body which removes or appends
+    elements of the list it iterates skips / sees elements exactly as the real code would."""
+
+    def __init__(self, lst):
+        self.lst = lst
+
+    def __iter__(self):
+        i = 0
+        while i < len(self.lst):
+            yield self.lst[i]
+            i += 1
+
+
 class LoopSpec:
     """Closed-form loop invariant for a loop over a SymSeq (DESIGN 3.4).
 
@@ -612,7 +626,7 @@ class Interp:
         it = self.eval(st.iter, env)
         if isinstance(it, SymSeq):
             return self.for_symbolic(st, env, it)
-        items = self.iterate(it)
+        items = self.iterate(it) if not isinstance(it, list) else _LiveList(it)
         broke = False
         for x in items:
             self.assign(st.target, x, env)
